@@ -152,7 +152,9 @@ ChanApply0(p0, e) ==
                 [p |-> p,
                  bad |-> KNames([ClosedHandleRefused |-> isOpen,
                                  WouldBlockOnlyWhenNothingAvailable |->
-                                     (KUndelivered(p) # {} /\ p.sending = <<>>) => p.recving # <<>>,
+                                     \* (items possibly dropped by known finding F6 are not "available")
+                                     (Cardinality(KUndelivered(p)) > p.natlost /\ p.sending = <<>>)
+                                        => p.recving # <<>>,
                                  EndOfStreamWhenAllSendersClosed |-> KOpen(p, "S") > 0])
                          \cup KNames(KObs(p, e))]
            [] e.res = "closed" ->
